@@ -43,10 +43,13 @@ def strat(lines):
                       # a recording of the same manager played back (endless input device)
                       st.integers(1, 3).map(lambda k: ("record", [k])))
     player = st.fixed_dictionaries(dict(audio=audio, chunk=st.one_of(st.integers(1, 4), st.integers(1, 4), st.none()),
-                                        channels=st.integers(1, 2)))
+                                        channels=st.integers(1, 2),
+                                        # the channel count by its current name or by the older alias
+                                        chan_kw=st.sampled_from(["channels", "channels", "nchannels"])))
     ctl = st.lists(st.one_of(
       st.tuples(st.sampled_from(OPS), st.integers(0, 3)),
       st.tuples(st.sampled_from(OPS), st.integers(0, 3)),
+      st.tuples(st.sampled_from(OPS + ["spawn", "spawn", "refused play"]), st.integers(0, 3)),
       st.tuples(st.just("spawn"), st.integers(0, 3))), max_size=8)
     maxs = 40 if tier == "quick" else 120
     return st.fixed_dictionaries(dict(
@@ -83,6 +86,8 @@ def normalise(c):
         ctl.append(("spawn", spawned))
         spawned += 1
         nlive += 1
+    elif op == "refused play":
+      ctl.append((op, i))
     else:
       ctl.append((op, i % nlive))
   allp = players + extra[:spawned]
@@ -118,11 +123,12 @@ def run_case(c):
       data = itertools.cycle(list(audio[1]))
     else:
       data = iter(list(audio))
+    chan = {p.get("chan_kw", "channels"): p["channels"]}
     if p["chunk"] is None:
-      th = io.play(data, channels=p["channels"])
+      th = io.play(data, **chan)
       p = dict(p, chunk=dflt, default_chunk=True)
     else:
-      th = io.play(data, chunk_size=p["chunk"], channels=p["channels"])
+      th = io.play(data, chunk_size=p["chunk"], **chan)
     threads.append(th)
     specs.append(p)
     return th
@@ -140,6 +146,17 @@ def run_case(c):
       for op, i in ctl:
         if op == "spawn":
           start(io, extra[i])
+        elif op == "refused play":
+          # a play() the backend (odd i: the sample rate) or the format table refuses: the error reaches
+          # the caller and the manager stays usable - everything below must still hold
+          try:
+            if i % 2:
+              io.play(iter([.5, .25]), rate=sched.FakePyAudio.REFUSED_RATE)
+            else:
+              io.play(iter([.5, .25]), dfmt="no such format")
+            out["refusal swallowed"] = True
+          except Exception:
+            pass
         else:
           if op == "stop":
             stopped.add(i)
@@ -194,10 +211,18 @@ def run_case(c):
     fs = th.stream
     n = p["chunk"]
     ch = p["channels"]
+    dev = fs.kw.get("channels")
     for data, frames in fs.chunks:
       if frames != n or len(data) != n * ch * 4:
         raise Violation("player %d wrote a chunk of %d frames / %d bytes, chunk_size is %d x %d channels; %s"
                         % (k, frames, len(data), n, ch, ctx))
+      # what the device takes from a write is frames x (the channel count it was opened with) samples:
+      # anything beyond that in the buffer is lost, anything less is read past the buffer
+      if len(data) != frames * dev * 4:
+        raise Violation("player %d (%s=%d) wrote %d bytes announced as %d frames to a device opened with "
+                        "%r channel(s), which takes %d bytes of them; %s"
+                        % (k, p.get("chan_kw", "channels"), ch, len(data), frames, dev, frames * dev * 4, ctx),
+                        site="nchannels-alias")
     got = b"".join(d for d, _ in fs.chunks)
     if isinstance(p["audio"], tuple) and p["audio"][0] == "record":
       need = [(i % 64) / 8. for i in range(len(got) // 4)]
@@ -258,6 +283,10 @@ def run_case(c):
   labels.append("chunks." + c.get("strategy", "struct"))
   if extra:
     labels.append("spawned mid-history")
+  if any(op == "refused play" for op, _ in ctl):
+    labels.append("a refused play in the history")
+  if any(p.get("chan_kw") == "nchannels" and p["channels"] > 1 for p in specs):
+    labels.append("nchannels alias, stereo")
   if S.taken:
     labels.append("pre-empted")
   return {"nontrivial": S.taken >= 1 and len([op for op, _ in ctl if op != "spawn"]) >= 1,
@@ -266,7 +295,8 @@ def run_case(c):
 
 CLAUSES = [
   Clause("sync_points", strat(False), run_case, quick=6000, thorough=60000,
-         floors={"paused at close": .1, "stop then close": .1, "pre-empted": .2, "endless audio": .1},
+         floors={"paused at close": .1, "stop then close": .1, "pre-empted": .2, "endless audio": .1,
+                 "a refused play in the history": .05, "nchannels alias, stereo": .05},
          doc="schedules pre-empting at lock/event/thread operations and backend calls"),
   Clause("source_lines", strat(True), run_case, quick=1500, thorough=30000,
          floors={"pre-empted": .15, "paused at close": .05},
